@@ -531,12 +531,21 @@ func runJob(ctx context.Context, p *Prop, j *job, tier string, seed int64, work 
 			fmt.Fprintf(&j.out, "\nvcheck: %v\n", err)
 		}
 	}
-	if !j.fuzz && !j.timed && j.code != 0 && j.code != 1 && j.sub.CrashIsViolation || (!j.fuzz && j.sub.CrashIsViolation && j.code == 1 && crashed(j.out.String())) {
+	// a crash is a verdict only with the signature of an unrecovered Go panic / fatal runtime error that is
+	// not a memory shortage; a killed or vanished worker stays inconclusive
+	if !j.fuzz && !j.timed && j.sub.CrashIsViolation && j.code != 0 && crashed(j.out.String()) && !outOfMemory(j.out.String()) {
 		cur := filepath.Join(work, fmt.Sprintf("current.%d.json", j.idx))
 		if b, err := os.ReadFile(cur); err == nil {
 			var rf map[string]interface{}
 			if json.Unmarshal(b, &rf) == nil {
-				rf["error"] = "the test process crashed while running this case:\n" + tail(j.out.String(), 25)
+				why := ""
+				for _, l := range strings.Split(j.out.String(), "\n") {
+					if strings.HasPrefix(l, "panic: ") || strings.HasPrefix(l, "fatal error: ") {
+						why = l
+						break
+					}
+				}
+				rf["error"] = "the test process crashed while running this case: " + why + "\n" + tail(j.out.String(), 25)
 				out, _ := json.MarshalIndent(rf, "", " ")
 				os.MkdirAll(filepath.Join(work, "replays"), 0o755)
 				os.WriteFile(filepath.Join(work, "replays", fmt.Sprintf("%s.crash%d.json", j.sub.Name, j.idx)), out, 0o644)
@@ -567,6 +576,10 @@ func runJob(ctx context.Context, p *Prop, j *job, tier string, seed int64, work 
 // crashed: did the process die from an unrecovered panic or a fatal runtime error?
 func crashed(out string) bool {
 	return strings.Contains(out, "\npanic: ") || strings.HasPrefix(out, "panic: ") || strings.Contains(out, "fatal error: ") || strings.Contains(out, "\ngoroutine ") && strings.Contains(out, "[running]")
+}
+
+func outOfMemory(out string) bool {
+	return strings.Contains(out, "out of memory") || strings.Contains(out, "cannot allocate memory") || strings.Contains(out, "failed to create new OS thread")
 }
 
 func copyDir(src, dst string) {
@@ -809,12 +822,27 @@ func runReplay(p *Prop, file string) int {
 	cmd.Dir = work
 	cmd.Env = append(os.Environ(), nsEnv, "VERIF_OUT="+work, "VERIF_REPLAY="+abs, "VERIF_TIER=quick",
 		"VERIF_KF="+filepath.Join(verifDir, "known_findings.json"), "TMPDIR="+work, "GOTRACEBACK=all")
-	cmd.Stdout = os.Stdout
-	cmd.Stderr = os.Stderr
+	var captured bytes.Buffer
+	cmd.Stdout = io.MultiWriter(os.Stdout, &captured)
+	cmd.Stderr = io.MultiWriter(os.Stderr, &captured)
 	if err := cmd.Run(); err != nil {
 		if ee, ok := err.(*exec.ExitError); ok && ee.ExitCode() == 1 {
 			fmt.Printf("VIOLATION property=%s replay=%s\n", p.ID, abs)
 			return 1
+		}
+		// the recorded case crashed the whole test process again: for sub-checks where a crash is a verdict
+		// that reproduces the violation
+		if rb, rerr := os.ReadFile(abs); rerr == nil {
+			var hdr struct {
+				Sub string `json:"sub"`
+			}
+			json.Unmarshal(rb, &hdr)
+			for _, sb := range p.Subs {
+				if sb.Name == hdr.Sub && sb.CrashIsViolation && crashed(captured.String()) && !outOfMemory(captured.String()) {
+					fmt.Printf("VIOLATION property=%s replay=%s\n", p.ID, abs)
+					return 1
+				}
+			}
 		}
 		fmt.Println("vcheck: replay:", err)
 		return 2
